@@ -147,7 +147,15 @@ def run_property(prop, tier="quick", seed=0):
             for crate in crates:
                 ctx.crate = crate
                 ctx.cfg = cfg if crate == "divan" else cfg + "/cfg(test)"
-                mod.run(ctx, prog, crate)
+                try:
+                    mod.run(ctx, prog, crate)
+                except (KeyError, IndexError, TypeError, ValueError, AttributeError, AssertionError) as e:
+                    # navigation error outside a guarded rule function: fail closed as well
+                    tb = traceback.extract_tb(e.__traceback__)
+                    last = [f for f in tb if "/rules/" in f.filename] or list(tb)
+                    ctx.fail("R%s/SHAPE" % prop[1:], ["run", type(e).__name__],
+                             "the rule driver of %s could not navigate the code it checks (%s: %s at %s:%d)"
+                             % (prop, type(e).__name__, e, os.path.basename(last[-1].filename), last[-1].lineno), None)
             ctx.cfg = cfg
             if hasattr(mod, "run_program"):
                 mod.run_program(ctx, prog)
